@@ -182,7 +182,7 @@ type kafObs struct {
 
 func (e *kafEnv) wait(o *kafObs) (string, *ordered_map.OrderedMap) {
 	written := e.written
-	timeout := time.After(8 * time.Second)
+	timeout := time.After(20 * time.Second)
 	for {
 		select {
 		case <-e.pc.parked:
@@ -739,7 +739,10 @@ func kafkaStats(lines, outs []string, d map[string]int) {
 }
 
 func init() {
-	register(&Component{Name: "kafka", Gen: kafkaGen, Run: kafkaRun, Monitor: kafkaMonitor, Stats: kafkaStats,
+	// Timing: the worker's shutdown sleeps 3 s (`shutdownDelay`, unexported) before it closes anything; on an overloaded
+	// machine the harness's wait for the exit has run out once ("hang" on a case that passes alone) - a disagreement must
+	// reproduce in re-runs before it counts
+	register(&Component{Name: "kafka", Gen: kafkaGen, Run: kafkaRun, Monitor: kafkaMonitor, Stats: kafkaStats, Timing: true,
 		Quick: 3000, Thorough: 20000,
 		Nontrivial: func(lines, outs []string) bool {
 			for _, o := range outs {
